@@ -1117,6 +1117,46 @@ theorem TimeRange.shifted_run {ms : List Msg} : ∀ {r : TimeRange} {z : Int}, r
     simp only
     rw [ih ha' hz' retTs]
 
+/-! ## the time accessors -/
+
+theorem Obj.msg_p1_of_unambiguous (o : Obj) (h : o.unambiguous = true) : o.msg.p1? = o.docP1 := by
+  cases o with
+  | raw => rfl
+  | plain p1 sys =>
+    cases p1 with
+    | none => rfl
+    | some x => cases x <;> rfl
+  | meas d =>
+    obtain ⟨mt, src, p1⟩ := d
+    by_cases hs : src = .p1Time
+    · subst hs
+      cases p1 with
+      | none => cases mt <;> simp [Obj.msg, Obj.getP1Time, Obj.docP1, Msg.p1?]
+      | some t' =>
+        simp [Obj.unambiguous] at h
+        subst h
+        simp [Obj.msg, Obj.getP1Time, Obj.docP1, Msg.p1?]
+    · cases p1 <;> simp [Obj.msg, Obj.getP1Time, Obj.docP1, Msg.p1?, hs]
+
+theorem Obj.docMsg_p1 (o : Obj) : o.docMsg.p1? = o.docP1 := by
+  unfold Obj.docMsg
+  cases o.docP1 <;> rfl
+
+theorem TimeRange.isInRange_congr (r : TimeRange) (retTs : Bool) {m m' : Msg} (h : m.p1? = m'.p1?) :
+    r.isInRange retTs m = r.isInRange retTs m' := by
+  unfold TimeRange.isInRange TimeRange.extract
+  rw [h]
+
+theorem TimeRange.run_congr (retTs : Bool) {α} (f g : α → Msg) {xs : List α} :
+    ∀ (r : TimeRange), (∀ x ∈ xs, (f x).p1? = (g x).p1?) → r.run retTs (xs.map f) = r.run retTs (xs.map g) := by
+  induction xs with
+  | nil => intros; rfl
+  | cons x xs ih =>
+    intro r h
+    have hx := TimeRange.isInRange_congr r retTs (h x (by simp))
+    simp only [List.map_cons, TimeRange.run]
+    rw [hx, ih _ (fun y hy => h y (by simp [hy]))]
+
 /-! ## the specification, message by message -/
 
 theorem Interval.seqFrom_length (I : Interval) {ms : List Msg} : ∀ {pre acc}, (I.seqFrom pre acc ms).length = ms.length := by
